@@ -84,7 +84,7 @@ class SyncEngine(BaseEngine):
 
     def _trigger(self, trigger_data: TriggerData):
         executed = False
-        if trigger_data.event == "__initial__":
+        if trigger_data.event == "__initial__" and self.sm.current_state_value is None:
             transition = self._initial_transition(trigger_data)
             self._activate(trigger_data, transition)
             return self._sentinel
